@@ -5,6 +5,7 @@
       SELECT cols FROM t [WHERE c [NOT] in (?,…,?) {AND c [NOT] in (?,…,?)}]        cols ::= * | c {, c}
       UPDATE t SET c=? {, c=?} WHERE rowID=?
       ALTER TABLE t ADD COLUMN 'c' type DEFAULT literal
+      select t.c {, t.c} from t {INNER JOIN t} [on t.a=t.a {and t.a=t.a}] ;        (t.* for t.c; `many2sql.get_intersection`)
 
   and an evaluator over the table representation of `Model/Table.lean`: rows in rowid order, `rowid` = position + 1,
   parameters bound positionally, identifiers resolved as SQLite resolves them (`Model.sqlCol`, `Model.findTab`:
@@ -15,6 +16,7 @@
   the answer is `unmodelled`, never an error class.   Core Lean only.
 -/
 import PdbVerif.Model.Table
+import PdbVerif.Model.TableJoin
 
 namespace MicroSql
 open Tbl Model
@@ -24,7 +26,7 @@ open Tbl Model
 inductive Tok
   | word (s : Py.Str)        -- a maximal run of characters that are neither blank nor punctuation
   | quoted (s : Py.Str)      -- '…'
-  | star | comma | lparen | rparen | qmark | eq
+  | star | comma | lparen | rparen | qmark | eq | semi
   | bad                      -- unterminated quote
   deriving DecidableEq, Repr, Inhabited
 
@@ -33,7 +35,8 @@ def quote : Char := '\''
 /-- the one-character tokens of the grammar -/
 def punct (c : Char) : Option Tok :=
   if c == '*' then some .star else if c == ',' then some .comma else if c == '(' then some .lparen
-  else if c == ')' then some .rparen else if c == '?' then some .qmark else if c == '=' then some .eq else none
+  else if c == ')' then some .rparen else if c == '?' then some .qmark else if c == '=' then some .eq
+  else if c == ';' then some .semi else none
 
 /-- a character that ends a word: SQLite white space (blank, \t, \n, \v, \f, \r), punctuation, a quote -/
 def isDelim (c : Char) : Bool := sqlSpace c || (punct c).isSome || c == quote
@@ -91,10 +94,25 @@ structure Cond where
   nparams : Nat
   deriving DecidableEq, Repr
 
+/-- `t.c`, or `t.*` (`col = none`) -/
+structure Field where
+  table : Py.Str
+  col : Option Py.Str
+  deriving DecidableEq, Repr
+
+/-- `t1.a1 = t2.a2` -/
+structure JoinEq where
+  t1 : Py.Str
+  a1 : Py.Str
+  t2 : Py.Str
+  a2 : Py.Str
+  deriving DecidableEq, Repr
+
 inductive Stmt
   | select (cols : Cols) (table : Py.Str) (conds : List Cond)
   | update (table : Py.Str) (sets : List Py.Str) (key : Py.Str)
   | addColumn (table name ty lit : Py.Str)
+  | join (fields : List Field) (tables : List Py.Str) (eqs : List JoinEq)
   deriving DecidableEq, Repr
 
 def outside {α : Type} : Except Err α := .error (.unmodelled "SQL text outside the grammar of MicroSql")
@@ -192,10 +210,75 @@ def parseAlter : List Tok → Except Err Stmt
     else outside
   | _ => outside
 
+/-! ### the join of `many2sql.get_intersection` -/
+
+/-- a word `t.c`: the part before the first `.` and the part after it (`none`: no dot) -/
+def splitDot (w : Py.Str) : Option (Py.Str × Py.Str) :=
+  match w.dropWhile (fun c => c != '.') with
+  | _ :: c => some (w.takeWhile (fun c => c != '.'), c)
+  | [] => none
+
+def qualified (w : Py.Str) : Except Err (Py.Str × Py.Str) :=
+  match splitDot w with
+  | some (t, c) => do let t' ← ident t; let c' ← ident c; pure (t', c')
+  | none => outside
+
+def parseField : List Tok → Except Err Field
+  | [.word w] => do let q ← qualified w; pure { table := q.1, col := some q.2 }
+  | [.word w, .star] =>
+    match splitDot w with
+    | some (t, []) => do let t' ← ident t; pure { table := t', col := none }
+    | _ => outside
+  | _ => outside
+
+def parseEq : List Tok → Except Err JoinEq
+  | [.word a, .eq, .word b] => do
+    let qa ← qualified a
+    let qb ← qualified b
+    pure { t1 := qa.1, a1 := qa.2, t2 := qb.1, a2 := qb.2 }
+  | _ => outside
+
+/-- `t {INNER JOIN t}` -/
+def parseTables : List Tok → Except Err (List Py.Str)
+  | [.word t] => do let t' ← ident t; pure [t']
+  | .word t :: .word i :: .word j :: rest =>
+    if isKw "inner" i && isKw "join" j then do
+      let t' ← ident t
+      let ts ← parseTables rest
+      pure (t' :: ts)
+    else outside
+  | _ => outside
+
+/-- the tokens before a final `;` -/
+def stripSemi : List Tok → Option (List Tok)
+  | [] => none
+  | [t] => if t = .semi then some [] else none
+  | t :: rest => (stripSemi rest).map (t :: ·)
+
+def parseJoin (ts : List Tok) : Except Err Stmt :=
+  match untilKw "from" ts with
+  | (fs, some rest) =>
+    match stripSemi rest with
+    | none => outside
+    | some body => do
+      let fields ← (pieces isComma fs).mapM parseField
+      match untilKw "on" body with
+      | (tabs, none) => do
+        let tables ← parseTables tabs
+        pure (.join fields tables [])
+      | (tabs, some eqs) => do
+        let tables ← parseTables tabs
+        let es ← (pieces (isWordKw "and") eqs).mapM parseEq
+        pure (.join fields tables es)
+  | _ => outside
+
 def parse (s : Py.Str) : Except Err Stmt :=
   match tokenize s with
   | .word w :: rest =>
-    if isKw "select" w then parseSelect rest
+    if isKw "select" w then
+      (match parseSelect rest with
+       | .ok st => .ok st
+       | .error _ => parseJoin rest)
     else if isKw "update" w then parseUpdate rest
     else if isKw "alter" w then parseAlter rest
     else outside
@@ -245,11 +328,64 @@ def execSelect (db : Db) (cols : Cols) (tn : Py.Str) (conds : List Cond) (params
     pure ((tab.rows.zipIdx.filter (fun rp => bound.all (fun b => b.holds db rp))).map
             (fun rp => cs.map (fun c => sqlCell c rp.2 rp.1)))
 
+/-! ### the join -/
+
+/-- the position of table `t` among the joined tables (identifiers compare case-insensitively) -/
+def tabIdx (tables : List Py.Str) (t : Py.Str) : Option Nat := tables.findIdx? (fun n => ciEq n t)
+
+/-- a selected field: which joined table, which columns of it (`t.*`: all) -/
+def resolveField (db : Db) (tables : List Py.Str) (f : Field) : Except Err (Nat × List Col) :=
+  match tabIdx tables f.table with
+  | none => .error .operational                        -- no such column t.c
+  | some i =>
+    match f.col with
+    | none => .ok (i, starCols db.extraNames)
+    | some c =>
+      match sqlCol db c with
+      | none => .error .operational
+      | some .rowID => .error (.unmodelled "rowid selected from a join")
+      | some col => .ok (i, [col])
+
+/-- `t1.a = t2.a` on one attribute of the two tables (other shapes of ON conditions are not emitted) -/
+def resolveEq (db : Db) (tables : List Py.Str) (e : JoinEq) : Except Err (Nat × Nat × StdCol) :=
+  match tabIdx tables e.t1, tabIdx tables e.t2, sqlCol db e.a1, sqlCol db e.a2 with
+  | some i1, some i2, some (.std s1), some (.std s2) =>
+    if s1 = s2 then .ok (i1, i2, s1) else .error (.unmodelled "ON condition between different attributes")
+  | some _, some _, some _, some _ => .error (.unmodelled "ON condition on a rowid or an added column")
+  | _, _, _, _ => .error .operational
+
+/-- the ON condition on one combination of rows (one row per joined table): the two cells are equal as SQLite
+    compares two columns of the same declared type -/
+def eqHolds (tup : List Row) (e : Nat × Nat × StdCol) : Bool :=
+  match tup[e.1]?, tup[e.2.1]? with
+  | some r, some r' => cmpEq (r.std e.2.2) (r'.std e.2.2)
+  | _, _ => false
+
+def fieldVals (tup : List Row) (f : Nat × List Col) : List Val :=
+  match tup[f.1]? with
+  | some r => f.2.map (fun c => cell c 0 r)
+  | none => []
+
+/-- `SELECT fields FROM t1 INNER JOIN t2 … ON eqs`: every combination of one row per table for which every ON
+    condition holds, projected on the fields.  SQLite does not specify the ORDER of these rows; MicroSql lists them as
+    the nested loops with the first table outermost do (`Model.cartesian`) — only the multiset is the contract, and
+    the correspondence run compares sorted rows. -/
+def execJoin (db : Db) (fields : List Field) (tables : List Py.Str) (eqs : List JoinEq) : Except Err (List (List Val)) :=
+  if !db.extra.isEmpty then .error (.unmodelled "added columns in a many2sql join") else
+  match tables.mapM (findTab db) with
+  | none => .error .operational                        -- no such table
+  | some tabs => do
+    let fs ← fields.mapM (resolveField db tables)
+    let es ← eqs.mapM (resolveEq db tables)
+    pure (((cartesian (tabs.map (·.rows))).filter (fun tup => es.all (eqHolds tup))).map
+            (fun tup => fs.flatMap (fieldVals tup)))
+
 /-- `cursor.execute(text, params)` of a query -/
 def query (db : Db) (text : Py.Str) (params : List Val) : Except Err (List (List Val)) :=
   match parse text with
   | .error e => .error e
   | .ok (.select cols tn conds) => execSelect db cols tn conds params
+  | .ok (.join fields tables eqs) => if params.isEmpty then execJoin db fields tables eqs else .error .programming
   | .ok _ => .error (.unmodelled "not a query")
 
 /-- what is fixed when an `UPDATE t SET c=?… WHERE k=?` is prepared: the table exists, the columns exist, the key is the rowid -/
